@@ -91,7 +91,7 @@ def run(tier, seed, t0):
     for ni, nr, nm in scen:
         try:
             scenario(e3, ni, nr, nm)
-        except sym.Unsupported as ex:
+        except _e3.ENC_ERRORS as ex:
             e3.error(nm, "MIR->SMT encoding of RecorderOnceCell::{set,try_load}", ex)
     obs = list(e3.res.obligations)
     obs += kani.run_group("core", HARNESSES, tier, hooks=True)
